@@ -466,6 +466,9 @@ class Module(HasAccessibles):
                 self.errors.append(f'{name}.{propname}: {str(e)}')
         # register the name on the wire after the configuration is applied:
         # export might be switched off (or renamed) in the configuration
+        if accessible.export is True:
+            # export=True given in the configuration: determine the name
+            accessible.fixExport()
         if accessible.export:
             self.accessiblename2attr[accessible.export] = name
         if isinstance(accessible, Parameter):
